@@ -764,9 +764,14 @@ class HTTPConnectionPool(ConnectionPool, RequestMethods):
         # for future rewinds in the event of a redirect/retry.
         body_pos = set_file_position(body, body_pos)
 
+        # Reject invalid timeouts before anything is taken from the pool: the
+        # clean-up below hands a slot back whenever the block fails.
+        timeout_obj = self._get_timeout(timeout)
+        if pool_timeout is not None and not pool_timeout >= 0:
+            raise ValueError("'pool_timeout' must be a non-negative number")
+
         try:
             # Request a connection from the queue.
-            timeout_obj = self._get_timeout(timeout)
             conn = self._get_conn(timeout=pool_timeout)
 
             conn.timeout = timeout_obj.connect_timeout  # type: ignore[assignment]
